@@ -140,10 +140,34 @@ def gen_case(rng, maxops=6, mathnames=()):
         col_names = col_names + ["q"]; valid = False
     elif bad < 0.14 and not scal:
         col_names = None
+    elif bad < 0.17 and scal:
+        # the index names a scalar (header) entry of data that is not a listed column: must be refused
+        index = scal[0]; valid = False
+    elif bad < 0.20:
+        # the entry under the index name is itself a header scalar and not listed
+        for row in data:
+            if row[0] == "name":
+                row[1], row[2] = "scalar", rng.choice(["ring", 7, 0.5])
+        col_names = [c for c in col_names if c != "name"]; valid = False
+    elif bad < 0.22 and any(r[0] == "w" for r in data):
+        index = "w"; valid = False            # an array of data that is not listed
+    elif bad < 0.25 and ncols:
+        index = rng.choice(col_names[1:])     # another listed column as the index: fine
+    elif bad < 0.28 and ncols >= 2:
+        # explicit col_names listing only some of the arrays: the others are non-column entries
+        drop = rng.choice(col_names[1:])
+        col_names = [c for c in col_names if c != drop]
+        cols = [(c, k) for c, k in cols if c != drop]
+        if n:       # (with 0 rows a non-column array of length 0 is indistinguishable from a column for assignment)
+            scal.append(drop)
     case = {"data": data, "col_names": col_names, "index": index, "ops": []}
+    if rng.random() < 0.2:
+        # the other constructor arguments: separators of the row selectors, string casting
+        case["ctor_kw"] = {k: v for k, v in (("sep_count", rng.choice(["::", "##"])), ("sep_previous", rng.choice(["<<", "<-"])),
+                                             ("sep_next", rng.choice([">>", "->"])), ("cast_strings", rng.random() < 0.5)) if rng.random() < 0.7}
     if not valid:
         return case
-    tr = Track(cols, n, "name", scal, numscal)
+    tr = Track(cols, n, index, scal, numscal)
     # how often a derivation is made from the current table while that table
     # stays current (selections and assignments interleaved on one source)
     stay_p = 1.0 if focus else rng.choice([0.0, 0.4, 0.7, 1.0])
@@ -175,7 +199,7 @@ def gen_case(rng, maxops=6, mathnames=()):
             else:
                 op = ["cols", pick, rng.choice(["str", "list"])]
                 if tr.index not in pick:
-                    newcols = [(tr.index, "str")] + newcols
+                    newcols = [(tr.index, dict(tr.cols).get(tr.index, "str"))] + newcols
                 tr.cols = newcols
         elif k < 0.46 and tr.n <= 40:
             op = ["addself"]; tr.n *= 2
@@ -204,8 +228,8 @@ def gen_case(rng, maxops=6, mathnames=()):
                 ok = ok and m is not None
                 tot += m or 0
             op = ["concat", sels]
-            if ok and tr.index == "name" and tot <= 60:
-                tr.n, tr.scalars = tot, set()
+            if ok and "name" in tr.names() and tot <= 60:
+                tr.n, tr.scalars, tr.index = tot, set(), "name"     # cls(data): default index "name"
             elif tot > 60:
                 op = None
         elif k < 0.90:
@@ -438,7 +462,8 @@ def run(ctx):
     n = ctx.pick(4000, 150000)
     ctx.rule = (f"{n} random tables (0..8 rows; index + 0..4 float/int/string/object columns and columns holding one vector or 2x2 matrix per row "
                 "(shapes (n,2), (n,3), (n,2,2); length = first axis); 0-2 scalars; sometimes a non-column array; "
-                "7% malformed constructor arguments) x random chains of <=6 (<=8 with stays) operations among rows[positions|slice|mask], cols[names and "
+                "~15% malformed constructor arguments: unequal lengths, index absent / naming a header scalar or an unlisted array, the index-name entry itself a scalar, "
+                "a scalar or a missing key listed; also explicit col_names subsets, another column as index, col_names=None, sep_* / cast_strings arguments) x random chains of <=6 (<=8 with stays) operations among rows[positions|slice|mask], cols[names and "
                 "arithmetic expressions], +, *, Table.concatenate, _copy, _t, assignment of arrays/scalars to keys drawn from one pool "
                 "(existing column, scalar entry -> column promotion, new column, new scalar, wrong-length array), del, t['expr'] / t.cols['expr']; "
                 "in 3/4 of the chains derivations are, with probability 0.4/0.7/1, made from a table that stays current, so that "
